@@ -197,7 +197,7 @@ def _large_cases(draw):
                                        "false_negative_rate_parity", "true_negative_rate_parity"]))
     return {"groups": groups, "constraint": constraint,
             "objective": draw(st.sampled_from(["accuracy_score", "balanced_accuracy_score"])),
-            "grid": draw(st.sampled_from([1, 10, 1000])), "flip": draw(st.booleans()),
+            "grid": draw(st.sampled_from([1, 10, 1000, 100000])), "flip": draw(st.booleans()),
             "pm": draw(st.sampled_from(["predict", "decision_function", "auto"])), "mult": draw(st.sampled_from([7919, 104729, 1]))}
 
 
